@@ -743,6 +743,28 @@ def _check_wiring(R, F, CG):
     if not srv:
         return
     f = srv[0]
+    # the always-allow HTTP validator is built only when authentication is switched off: with `enable_auth` true (every other
+    # test undecided - missing, empty or odd credentials included) no path reaches `HttpNonBlockingAuth::allow()`
+    from terms import explore_under as _xu2
+    fi_ = F.inlined(f)
+    allow_bbs = {c.bb for c in fi_.calls() if not fi_.is_cleanup(c.bb) and (c.path or "").endswith("HttpNonBlockingAuth::allow")}
+    R.floor("http_allow_sites", len(allow_bbs), 1)
+
+    def _auth_env(on):
+        def env_of(t):
+            x = t
+            while x[0] in ("ref", "deref", "cast"):
+                x = x[1]
+            if x[0] == "field" and x[2] == ".brc20_prog_rpc_server_enable_auth":
+                return on
+            return None
+        return env_of
+    _o, vis_on = _xu2(fi_, _auth_env(True), limit=20000)
+    _o, vis_off = _xu2(fi_, _auth_env(False), limit=20000)
+    R.ob(not (allow_bbs & vis_on), "GUARD", fi_.where(), "GUARD|server|allow-only-when-auth-off",
+         "with authentication enabled a path reaches HttpNonBlockingAuth::allow(): on it every request passes the HTTP layer as authorized, "
+         "so the indexer methods are open to callers without credentials", sample={"rule": "GUARD (abstract execution)", "fn": "start_rpc_server", "row": "enable_auth => allow() unreachable"})
+    R.ob(bool(allow_bbs & vis_off) or not allow_bbs, "GUARD", fi_.where(), "GUARD|server|allow-when-auth-off", "with authentication disabled the always-allow validator is not reached")
     calls = {c.path.split("::")[-1]: c for c in f.calls() if c.path and not f.is_cleanup(c.bb)}
     need = ["set_http_middleware", "set_rpc_middleware", "start", "layer_fn", "custom"]
     for n in need:
